@@ -1,6 +1,1575 @@
-//! C15 — not implemented yet.
+//! C15 — An RWA identity is verified only by valid claims from currently trusted issuers.
+//!
+//! Targets (all real library code, wired in `contracts::c15`): `Cti`, `Irs`, `Ident`, `IdVerifier`
+//! and `Issuer` (claim issuer written from the claim_issuer module recipe, three schemes).
+//!
+//! A case is: key seed, initial registry (topics, trusted issuers), a registry history, an initial
+//! key-allowance mask and a history of operations: claims (genuinely signed or carrying exactly one
+//! defect), after-acceptance defects (key removed, revoked, nonce bumped, ledger time advanced to the
+//! expiry boundary, issuer de-listed), registry / key / IRS operations.
+//!
+//! Oracle: `valid(c)` is computed BY CONSTRUCTION from what was signed and what is presented (no
+//! signature is ever verified by the oracle) against a reference model of the issuer state (allowed keys,
+//! nonces, revocations, time) written from the module documentation.  After EVERY step:
+//!   * every held record is shown to its issuer: `is_claim_valid` succeeds iff valid(c);
+//!   * `verify_identity(a)` for every account succeeds iff the account has a registered identity and for
+//!     every required topic some CURRENTLY trusted issuer has a matching, valid record (both directions).
+//!   * `add_claim` accepts iff valid(c).
+
+use crate::contracts::c15::{cti::Cti, ident::ClaimsStorageKey, ident::Ident, irs::Irs, issuer::Issuer, verifier::IdVerifier};
 use crate::engine::*;
+use crate::envx::{self, call};
+use crate::gen::pick;
+use proptest::prelude::*;
+use serde::{Deserialize, Serialize};
+use sha2::{Digest, Sha256};
+use sha3::Keccak256;
+use soroban_sdk::testutils::Ledger as _;
+use soroban_sdk::xdr::{Limits, ScAddress, ScVal, WriteXdr};
+use soroban_sdk::{Address, Bytes, BytesN, Env, Map, String as SString, Val, Vec as SVec};
+use std::collections::{BTreeMap, BTreeSet};
+use stellar_tokens::rwa::identity_claims::{generate_claim_id, Claim};
+use stellar_tokens::rwa::identity_registry_storage::{CountryData, CountryRelation, IndividualCountryRelation};
+
+// ------------------------------------------------------------------ universe
+
+/// topic numbers (index -> number)
+const TOPICS: [u32; 4] = [1, 2, 3, 7];
+const N_ISS: usize = 3;
+const N_IDENT: usize = 2;
+const N_ACCT: usize = 3;
+const STRANGER: u8 = 0xff;
+const MAX_REG_OPS: u32 = 15;
+
+#[derive(Clone, Copy, Debug, PartialEq, Eq, PartialOrd, Ord, Serialize, Deserialize)]
+pub enum Scheme {
+    Ed,
+    K1,
+    R1,
+}
+const SCHEMES: [Scheme; 3] = [Scheme::Ed, Scheme::K1, Scheme::R1];
+impl Scheme {
+    fn number(self) -> u32 {
+        match self {
+            Scheme::Ed => 101,
+            Scheme::K1 => 102,
+            Scheme::R1 => 103,
+        }
+    }
+    fn from_number(n: u32) -> Option<Scheme> {
+        match n {
+            101 => Some(Scheme::Ed),
+            102 => Some(Scheme::K1),
+            103 => Some(Scheme::R1),
+            _ => None,
+        }
+    }
+    /// documented sig_data length: Ed 32+64, Secp256k1 65+64+4, Secp256r1 65+64
+    fn sig_len(self) -> usize {
+        match self {
+            Scheme::Ed => 96,
+            Scheme::K1 => 133,
+            Scheme::R1 => 129,
+        }
+    }
+    fn idx(self) -> usize {
+        self as usize
+    }
+    fn name(self) -> &'static str {
+        match self {
+            Scheme::Ed => "ed25519",
+            Scheme::K1 => "secp256k1",
+            Scheme::R1 => "secp256r1",
+        }
+    }
+}
+
+// ------------------------------------------------------------------ case
+
+#[derive(Clone, Debug, Serialize, Deserialize)]
+pub enum RegOp {
+    AddTopic(u8),
+    RemoveTopic(u8),
+    /// issuer, topic mask over the universe; `clip`: intersect the mask with the currently required topics
+    AddIssuer(u8, u8, bool),
+    RemoveIssuer(u8),
+    UpdateIssuer(u8, u8, bool),
+}
+
+#[derive(Clone, Debug, PartialEq, Eq, Serialize, Deserialize)]
+pub enum Defect {
+    None,
+    /// one bit of sig_data (public key, signature or recovery id part) flipped after signing
+    SigBitFlip(u16),
+    /// one byte of the claim data changed after signing (selector, xor mask)
+    DataByteFlip(u16, u8),
+    /// signed for the other identity
+    OtherIdentity,
+    /// signed for another topic
+    OtherTopic(u8),
+    /// signed with another issuer's address in the message
+    OtherIssuer(u8),
+    /// signed over another network id (which byte is changed)
+    OtherNetwork(u8),
+    /// signed with nonce-1 (an old nonce) when the current nonce is > 0, otherwise nonce+1
+    WrongNonce,
+    /// signed by a key that is not allowed for the topic at this issuer: another key of the issuer that is
+    /// allowed for a different topic when one exists (`stranger == false`), else a key nobody registered
+    KeyNotAllowed { stranger: bool },
+    /// presented with another scheme number: 0/1 = the two other known numbers, 2 = unknown (200), 3 = 0
+    WrongScheme(u8),
+    /// sig_data cut to a shorter length
+    Truncated(u16),
+    /// one extra byte appended to sig_data
+    Extended,
+    /// the (issuer, identity, topic, data) claim is revoked at the issuer BEFORE it is presented
+    PreRevoked,
+    /// record stored in slot (issuer, topic) whose `issuer` field names another issuer (signed genuinely by the slot issuer)
+    SlotIssuer(u8),
+    /// record stored in slot (issuer, topic) whose `topic` field names another topic (signed genuinely for the slot topic)
+    SlotTopic(u8),
+}
+impl Defect {
+    fn name(&self) -> &'static str {
+        match self {
+            Defect::None => "none",
+            Defect::SigBitFlip(_) => "sig_bit_flip",
+            Defect::DataByteFlip(..) => "data_byte_flip",
+            Defect::OtherIdentity => "signed_other_identity",
+            Defect::OtherTopic(_) => "signed_other_topic",
+            Defect::OtherIssuer(_) => "signed_other_issuer",
+            Defect::OtherNetwork(_) => "signed_other_network",
+            Defect::WrongNonce => "signed_wrong_nonce",
+            Defect::KeyNotAllowed { .. } => "key_not_allowed",
+            Defect::WrongScheme(_) => "wrong_scheme_number",
+            Defect::Truncated(_) => "truncated_sig_data",
+            Defect::Extended => "extended_sig_data",
+            Defect::PreRevoked => "revoked_before_add",
+            Defect::SlotIssuer(_) => "slot_issuer_mismatch",
+            Defect::SlotTopic(_) => "slot_topic_mismatch",
+        }
+    }
+}
+
+#[derive(Clone, Debug, Serialize, Deserialize)]
+pub enum Target {
+    /// pick among the currently trusted (issuer, topic) pairs (falls back to raw indices derived from the selector)
+    Trusted(u16),
+    Raw(u8, u8),
+}
+#[derive(Clone, Debug, Serialize, Deserialize)]
+pub enum KeySel {
+    /// a scheme whose key is currently allowed for (issuer, topic) (falls back to the selector)
+    Allowed(u16),
+    Raw(Scheme),
+}
+
+#[derive(Clone, Debug, Serialize, Deserialize)]
+pub struct ClaimOp {
+    pub ident: u8,
+    pub target: Target,
+    pub key: KeySel,
+    /// valid_until = timestamp of ledger (now + ttl) + off seconds; ttl == 0 && off == 0 => `valid_until == now` (expired)
+    pub ttl: u8,
+    pub off: u8,
+    pub payload: Vec<u8>,
+    pub defect: Defect,
+    /// when `add_claim` refuses the claim, place the record into the identity's storage directly
+    pub inject: bool,
+}
+
+#[derive(Clone, Debug, Serialize, Deserialize)]
+pub enum IrsOp {
+    Remove(u8),
+    Add(u8, u8),
+    Modify(u8, u8),
+}
+#[derive(Clone, Debug, Serialize, Deserialize)]
+pub enum Cross {
+    Topic(u8),
+    Ident,
+    Issuer(u8),
+}
+
+#[derive(Clone, Debug, Serialize, Deserialize)]
+pub enum Op {
+    Claim(ClaimOp),
+    /// for every required topic of the identity without a valid claim, add a genuine one when some trusted issuer has an allowed key
+    Cover { ident: u8, sel: u16, ttl: u8 },
+    // ---- defects that arise AFTER acceptance, aimed at a held record
+    DropKey(u16),
+    Revoke(u16, bool),
+    Bump(u16),
+    /// the issuer signs the SAME claim data of a held record again under the current nonce (revocation must survive a nonce bump)
+    /// (selector preferring currently revoked records, bump the nonce first)
+    Resign(u16, bool),
+    AdvanceToExpiry(u16, i8),
+    /// 0: remove the issuer, 1: update the issuer's topics without the record's topic, 2: remove the topic
+    Delist(u16, u8),
+    RemoveClaim(u16),
+    // ---- raw operations
+    Reg(RegOp),
+    AllowKey { issuer: u8, scheme: Scheme, topic: u8 },
+    RemoveKey { issuer: u8, scheme: Scheme, topic: u8 },
+    Advance(u8),
+    Irs(IrsOp),
+    /// show a held record to an issuer for another topic / identity / at another issuer
+    CrossProbe(u16, Cross),
+}
+
+#[derive(Clone, Debug, Serialize, Deserialize)]
+pub struct Case {
+    pub seed: u64,
+    pub seq: u32,
+    /// initially required topics (mask over the universe)
+    pub topics0: u8,
+    /// initial trusted issuers: topic mask per issuer (clipped to topics0; 0 = not trusted)
+    pub issuers0: [u8; N_ISS],
+    pub reg: Vec<RegOp>,
+    /// keys allowed after the registry prefix: bit (issuer*4 + topic_idx)*3 + scheme, where the issuer is trusted for the topic
+    pub keys: u64,
+    pub ops: Vec<Op>,
+}
+
+// ------------------------------------------------------------------ strategy
+
+fn regop_strategy() -> BoxedStrategy<RegOp> {
+    // masks: half of the time "every currently required topic" (with clipping), so that topics added late get issuers too
+    let mask = || prop_oneof![1 => 0u8..16, 1 => Just(15u8)];
+    prop_oneof![
+        2 => (0u8..4).prop_map(RegOp::AddTopic),
+        2 => (0u8..4).prop_map(RegOp::RemoveTopic),
+        4 => (0u8..N_ISS as u8, mask(), proptest::bool::weighted(0.9)).prop_map(|(i, m, c)| RegOp::AddIssuer(i, m, c)),
+        1 => (0u8..N_ISS as u8).prop_map(RegOp::RemoveIssuer),
+        4 => (0u8..N_ISS as u8, mask(), proptest::bool::weighted(0.9)).prop_map(|(i, m, c)| RegOp::UpdateIssuer(i, m, c)),
+    ]
+    .boxed()
+}
+
+fn scheme_strategy() -> BoxedStrategy<Scheme> {
+    proptest::sample::select(SCHEMES.to_vec()).boxed()
+}
+
+fn defect_strategy() -> BoxedStrategy<Defect> {
+    prop_oneof![
+        14 => Just(Defect::None),
+        2 => any::<u16>().prop_map(Defect::SigBitFlip),
+        2 => (any::<u16>(), 1u8..=255).prop_map(|(a, b)| Defect::DataByteFlip(a, b)),
+        2 => Just(Defect::OtherIdentity),
+        2 => (0u8..8).prop_map(Defect::OtherTopic),
+        2 => (0u8..4).prop_map(Defect::OtherIssuer),
+        2 => (0u8..32).prop_map(Defect::OtherNetwork),
+        2 => Just(Defect::WrongNonce),
+        3 => any::<bool>().prop_map(|stranger| Defect::KeyNotAllowed { stranger }),
+        2 => (0u8..4).prop_map(Defect::WrongScheme),
+        2 => any::<u16>().prop_map(Defect::Truncated),
+        1 => Just(Defect::Extended),
+        2 => Just(Defect::PreRevoked),
+        2 => (0u8..4).prop_map(Defect::SlotIssuer),
+        2 => (0u8..8).prop_map(Defect::SlotTopic),
+    ]
+    .boxed()
+}
+
+fn claim_strategy() -> BoxedStrategy<ClaimOp> {
+    let target = prop_oneof![
+        9 => any::<u16>().prop_map(Target::Trusted),
+        1 => (0u8..N_ISS as u8, 0u8..4).prop_map(|(i, t)| Target::Raw(i, t)),
+    ];
+    let key = prop_oneof![
+        9 => any::<u16>().prop_map(KeySel::Allowed),
+        1 => scheme_strategy().prop_map(KeySel::Raw),
+    ];
+    let ttl = prop_oneof![1 => Just(0u8), 2 => 1u8..=3, 6 => 4u8..=60];
+    let off = prop_oneof![3 => Just(0u8), 1 => 1u8..5];
+    (
+        0u8..N_IDENT as u8,
+        target,
+        key,
+        ttl,
+        off,
+        proptest::collection::vec(any::<u8>(), 0..6),
+        defect_strategy(),
+        proptest::bool::weighted(0.85),
+    )
+        .prop_map(|(ident, target, key, ttl, off, payload, defect, inject)| ClaimOp { ident, target, key, ttl, off, payload, defect, inject })
+        .boxed()
+}
+
+fn op_strategy() -> BoxedStrategy<Op> {
+    let irs = prop_oneof![
+        2 => (0u8..N_ACCT as u8).prop_map(IrsOp::Remove),
+        2 => (0u8..N_ACCT as u8, 0u8..N_IDENT as u8).prop_map(|(a, i)| IrsOp::Add(a, i)),
+        2 => (0u8..N_ACCT as u8, 0u8..N_IDENT as u8).prop_map(|(a, i)| IrsOp::Modify(a, i)),
+    ];
+    let cross = prop_oneof![
+        2 => (0u8..8).prop_map(Cross::Topic),
+        1 => Just(Cross::Ident),
+        1 => (0u8..4).prop_map(Cross::Issuer),
+    ];
+    prop_oneof![
+        16 => claim_strategy().prop_map(Op::Claim),
+        9 => (0u8..N_IDENT as u8, any::<u16>(), 2u8..=60).prop_map(|(ident, sel, ttl)| Op::Cover { ident, sel, ttl }),
+        3 => any::<u16>().prop_map(Op::DropKey),
+        3 => (any::<u16>(), proptest::bool::weighted(0.8)).prop_map(|(s, r)| Op::Revoke(s, r)),
+        3 => any::<u16>().prop_map(Op::Bump),
+        3 => (any::<u16>(), any::<bool>()).prop_map(|(s, b)| Op::Resign(s, b)),
+        4 => (any::<u16>(), -1i8..=1).prop_map(|(s, d)| Op::AdvanceToExpiry(s, d)),
+        3 => (any::<u16>(), 0u8..3).prop_map(|(s, h)| Op::Delist(s, h)),
+        1 => any::<u16>().prop_map(Op::RemoveClaim),
+        3 => regop_strategy().prop_map(Op::Reg),
+        2 => (0u8..N_ISS as u8, scheme_strategy(), 0u8..4).prop_map(|(issuer, scheme, topic)| Op::AllowKey { issuer, scheme, topic }),
+        1 => (0u8..N_ISS as u8, scheme_strategy(), 0u8..4).prop_map(|(issuer, scheme, topic)| Op::RemoveKey { issuer, scheme, topic }),
+        2 => (0u8..=8).prop_map(Op::Advance),
+        1 => irs.prop_map(Op::Irs),
+        3 => (any::<u16>(), cross).prop_map(|(s, c)| Op::CrossProbe(s, c)),
+    ]
+    .boxed()
+}
+
+fn strategy(tier: Tier) -> BoxedStrategy<Case> {
+    let max_ops = tier.pick(22usize, 40usize);
+    // at least two required topics most of the time
+    let topics0 = prop_oneof![1 => 0u8..16, 6 => (0u8..16).prop_map(|m| if m.count_ones() < 2 { m | 0b0011 } else { m })];
+    let imask = prop_oneof![1 => Just(0u8), 5 => 1u8..16, 2 => Just(15u8)];
+    (
+        any::<u64>(),
+        100u32..100_000,
+        topics0,
+        [prop_oneof![1 => Just(0u8), 3 => 1u8..16, 4 => Just(15u8)], imask.clone(), imask],
+        proptest::collection::vec(regop_strategy(), 0..5),
+        // dense key allowance: each bit set with probability 3/4
+        (any::<u64>(), any::<u64>()).prop_map(|(a, b)| a | b),
+        proptest::collection::vec(op_strategy(), 0..max_ops),
+    )
+        .prop_map(|(seed, seq, topics0, issuers0, reg, keys, ops)| Case { seed, seq, topics0, issuers0, reg, keys, ops })
+        .boxed()
+}
+
+// ------------------------------------------------------------------ independent cryptography
+
+fn sha256(parts: &[&[u8]]) -> [u8; 32] {
+    let mut h = Sha256::new();
+    for p in parts {
+        h.update(p);
+    }
+    h.finalize().into()
+}
+fn keccak256(data: &[u8]) -> [u8; 32] {
+    let mut h = Keccak256::new();
+    h.update(data);
+    h.finalize().into()
+}
+
+/// secret key bytes derived from the case seed: (owner, scheme) -> 32 bytes
+fn secret(seed: u64, owner: u8, scheme: Scheme, ctr: u8) -> [u8; 32] {
+    sha256(&[b"verif-c15-key", &seed.to_le_bytes(), &[owner, scheme.idx() as u8, ctr]])
+}
+
+enum Key {
+    Ed(ed25519_dalek::SigningKey),
+    K1(k256::ecdsa::SigningKey),
+    R1(p256::ecdsa::SigningKey),
+}
+impl Key {
+    fn derive(seed: u64, owner: u8, scheme: Scheme) -> Key {
+        for ctr in 0..=255u8 {
+            let s = secret(seed, owner, scheme, ctr);
+            match scheme {
+                Scheme::Ed => return Key::Ed(ed25519_dalek::SigningKey::from_bytes(&s)),
+                Scheme::K1 => {
+                    if let Ok(k) = k256::ecdsa::SigningKey::from_slice(&s) {
+                        return Key::K1(k);
+                    }
+                }
+                Scheme::R1 => {
+                    if let Ok(k) = p256::ecdsa::SigningKey::from_slice(&s) {
+                        return Key::R1(k);
+                    }
+                }
+            }
+        }
+        unreachable!("256 consecutive out-of-range scalars")
+    }
+    /// public key bytes as they appear in sig_data and in `allow_key` (Ed: 32 raw bytes; secp: 65-byte uncompressed SEC1)
+    fn public(&self) -> Vec<u8> {
+        match self {
+            Key::Ed(k) => k.verifying_key().to_bytes().to_vec(),
+            Key::K1(k) => k.verifying_key().to_encoded_point(false).as_bytes().to_vec(),
+            Key::R1(k) => k.verifying_key().to_encoded_point(false).as_bytes().to_vec(),
+        }
+    }
+    /// sig_data for the message in the layout documented for the scheme's verifier
+    fn sign(&self, msg: &[u8]) -> Vec<u8> {
+        let mut out = self.public();
+        match self {
+            Key::Ed(k) => {
+                use ed25519_dalek::Signer;
+                out.extend_from_slice(&k.sign(msg).to_bytes());
+            }
+            Key::K1(k) => {
+                // keccak256 digest, recoverable, low-S; recovery id as 4 big-endian bytes
+                let digest = keccak256(msg);
+                let (sig, recid) = k.sign_prehash_recoverable(&digest).expect("k256 sign");
+                let (sig, rec) = match sig.normalize_s() {
+                    Some(n) => (n, recid.to_byte() ^ 1),
+                    None => (sig, recid.to_byte()),
+                };
+                out.extend_from_slice(&sig.to_bytes());
+                out.extend_from_slice(&(rec as u32).to_be_bytes());
+            }
+            Key::R1(k) => {
+                use p256::ecdsa::signature::hazmat::PrehashSigner;
+                let digest = sha256(&[msg]);
+                let sig: p256::ecdsa::Signature = k.sign_prehash(&digest).expect("p256 sign");
+                let sig = sig.normalize_s().unwrap_or(sig);
+                out.extend_from_slice(&sig.to_bytes());
+            }
+        }
+        out
+    }
+}
+
+fn addr_xdr(a: &Address) -> Vec<u8> {
+    let sc = ScAddress::try_from(a).expect("address to ScAddress");
+    ScVal::Address(sc).to_xdr(Limits::none()).expect("xdr")
+}
+
+/// documented message layout: network_id || claim_issuer || identity || claim_topic || nonce || claim_data
+fn claim_message(net: &[u8; 32], issuer: &Address, identity: &Address, topic: u32, nonce: u32, data: &[u8]) -> Vec<u8> {
+    let mut m = net.to_vec();
+    m.extend_from_slice(&addr_xdr(issuer));
+    m.extend_from_slice(&addr_xdr(identity));
+    m.extend_from_slice(&topic.to_be_bytes());
+    m.extend_from_slice(&nonce.to_be_bytes());
+    m.extend_from_slice(data);
+    m
+}
+
+/// documented claim-data layout: created_at (8 bytes BE) || valid_until (8 bytes BE) || payload
+fn encode_data(created_at: u64, valid_until: u64, payload: &[u8]) -> Vec<u8> {
+    let mut d = created_at.to_be_bytes().to_vec();
+    d.extend_from_slice(&valid_until.to_be_bytes());
+    d.extend_from_slice(payload);
+    d
+}
+fn valid_until_of(data: &[u8]) -> Option<u64> {
+    if data.len() < 16 {
+        return None;
+    }
+    let mut b = [0u8; 8];
+    b.copy_from_slice(&data[8..16]);
+    Some(u64::from_be_bytes(b))
+}
+
+// ------------------------------------------------------------------ model
+
+/// What was signed (by construction) and with which key.
+#[derive(Clone, Debug)]
+struct Signed {
+    net_ok: bool,
+    issuer: usize,
+    ident: usize,
+    topic: u32,
+    nonce: u32,
+    data: Vec<u8>,
+    key_owner: u8,
+    key_scheme: Scheme,
+}
+
+/// A claim as presented (to `add_claim`, `is_claim_valid`) or held in an identity's storage.
+#[derive(Clone, Debug)]
+struct Rec {
+    f_issuer: usize,
+    f_topic: u32,
+    scheme_no: u32,
+    sig_data: Vec<u8>,
+    data: Vec<u8>,
+    signed: Signed,
+    /// sig_data is exactly what the signer produced
+    sig_intact: bool,
+    defect: &'static str,
+}
+
+#[derive(Default)]
+struct Model {
+    topics: Vec<u32>,
+    issuers: BTreeMap<usize, Vec<u32>>,
+    allowed: BTreeSet<(usize, Scheme, u32)>,
+    nonce: BTreeMap<(usize, usize, u32), u32>,
+    revoked: BTreeMap<(usize, usize, u32, Vec<u8>), bool>,
+    irs: BTreeMap<usize, usize>,
+    /// (identity, slot issuer, slot topic) -> record
+    recs: BTreeMap<(usize, usize, u32), Rec>,
+    reg_ops: u32,
+}
+
+impl Model {
+    fn trusted(&self, issuer: usize, topic: u32) -> bool {
+        self.issuers.get(&issuer).map(|ts| ts.contains(&topic)).unwrap_or(false)
+    }
+    fn trusted_for(&self, topic: u32) -> Vec<usize> {
+        self.issuers.iter().filter(|(_, ts)| ts.contains(&topic)).map(|(i, _)| *i).collect()
+    }
+    fn trusted_pairs(&self) -> Vec<(usize, u32)> {
+        let mut v = vec![];
+        for (i, ts) in &self.issuers {
+            for t in ts {
+                v.push((*i, *t));
+            }
+        }
+        v
+    }
+    fn nonce_of(&self, issuer: usize, ident: usize, topic: u32) -> u32 {
+        self.nonce.get(&(issuer, ident, topic)).copied().unwrap_or(0)
+    }
+    /// The statement's issuer clause: the claim is confirmed iff it is signed over this network, issuer,
+    /// identity, topic, current nonce and data by a key currently allowed for the topic, and it is neither
+    /// expired, revoked nor invalidated by a nonce bump.  Returns the first reason for rejection.
+    fn why_invalid(&self, r: &Rec, issuer: usize, ident: usize, topic: u32, now: u64) -> Option<(&'static str, &'static str)> {
+        let Some(sch) = Scheme::from_number(r.scheme_no) else { return Some(("wrong_scheme", "unknown scheme number")) };
+        if r.sig_data.len() != sch.sig_len() {
+            return Some(("sig_data_length", "sig_data length does not fit the scheme"));
+        }
+        if sch != r.signed.key_scheme {
+            return Some(("wrong_scheme", "scheme number is not the signing key's scheme"));
+        }
+        if !r.sig_intact {
+            return Some(("sig_tampered", "sig_data tampered"));
+        }
+        if r.signed.key_owner as usize != issuer || !self.allowed.contains(&(issuer, sch, topic)) {
+            return Some(("key_not_allowed", "signing key is not (or no longer) allowed for the topic at this issuer"));
+        }
+        match valid_until_of(&r.data) {
+            None => return Some(("no_expiration_header", "claim data without expiration header")),
+            Some(vu) if now >= vu => return Some(("expired", "expired: valid_until <= ledger timestamp")),
+            _ => {}
+        }
+        if self.revoked.get(&(issuer, ident, topic, r.data.clone())).copied().unwrap_or(false) {
+            return Some(("revoked", "revoked at the issuer"));
+        }
+        if !r.signed.net_ok {
+            return Some(("other_network", "signed for another network id"));
+        }
+        if r.signed.issuer != issuer {
+            return Some(("other_issuer", "signed for another issuer"));
+        }
+        if r.signed.ident != ident {
+            return Some(("other_identity", "signed for another identity"));
+        }
+        if r.signed.topic != topic {
+            return Some(("other_topic", "signed for another topic"));
+        }
+        if r.signed.nonce != self.nonce_of(issuer, ident, topic) {
+            return Some(("stale_nonce", "signed with a nonce that is not the current one"));
+        }
+        if r.signed.data != r.data {
+            return Some(("data_tampered", "data differs from the signed data"));
+        }
+        None
+    }
+    /// does the record held in slot (ident, issuer, topic) count for (issuer, topic)?
+    fn counts(&self, ident: usize, issuer: usize, topic: u32, now: u64) -> bool {
+        match self.recs.get(&(ident, issuer, topic)) {
+            Some(r) => r.f_issuer == issuer && r.f_topic == topic && self.why_invalid(r, issuer, ident, topic, now).is_none(),
+            None => false,
+        }
+    }
+    /// (strict, lenient): strict = the statement; lenient = the statement with topics that have no trusted issuer skipped
+    fn expect_verify(&self, acct: usize, now: u64) -> (bool, bool) {
+        let Some(&ident) = self.irs.get(&acct) else { return (false, false) };
+        let (mut strict, mut lenient) = (true, true);
+        for &t in &self.topics {
+            let iss = self.trusted_for(t);
+            let sat = iss.iter().any(|&i| self.counts(ident, i, t, now));
+            if !sat {
+                strict = false;
+                if !iss.is_empty() {
+                    lenient = false;
+                }
+            }
+        }
+        (strict, lenient)
+    }
+}
+
+// ------------------------------------------------------------------ world
+
+struct World {
+    e: Env,
+    op: Address,
+    cti: Address,
+    irs: Address,
+    verifier: Address,
+    issuers: Vec<Address>,
+    idents: Vec<Address>,
+    accts: Vec<Address>,
+    net: [u8; 32],
+    seed: u64,
+    keys: BTreeMap<(u8, usize), Key>,
+    m: Model,
+}
+
+fn bytes(e: &Env, v: &[u8]) -> Bytes {
+    Bytes::from_slice(e, v)
+}
+fn topics_of_mask(mask: u8) -> Vec<u32> {
+    (0..4).filter(|k| mask & (1 << k) != 0).map(|k| TOPICS[k]).collect()
+}
+fn topic_number(k: u8) -> u32 {
+    // indices 0..4 are the universe, larger ones are numbers no registry ever holds
+    if (k as usize) < TOPICS.len() {
+        TOPICS[k as usize]
+    } else {
+        1000 + k as u32
+    }
+}
+
+impl World {
+    fn now(&self) -> u64 {
+        self.e.ledger().timestamp()
+    }
+    fn key(&mut self, owner: u8, scheme: Scheme) -> &Key {
+        let seed = self.seed;
+        self.keys.entry((owner, scheme.idx())).or_insert_with(|| Key::derive(seed, owner, scheme))
+    }
+    fn pubkey(&mut self, owner: u8, scheme: Scheme) -> Vec<u8> {
+        self.key(owner, scheme).public()
+    }
+    /// privileged call (authorization is not the subject of C15)
+    fn admin(&self, c: &Address, f: &str, args: SVec<Val>) -> Result<Val, String> {
+        self.e.mock_all_auths();
+        let r = call(&self.e, c, f, args);
+        envx::no_auth(&self.e);
+        r
+    }
+
+    // ---- registry
+
+    fn reg_op(&mut self, op: &RegOp, ctx: &mut Ctx, what: &str) -> R {
+        if self.m.reg_ops >= MAX_REG_OPS {
+            ctx.class("registry_op_cap_skipped");
+            return Ok(());
+        }
+        self.m.reg_ops += 1;
+        let e = self.e.clone();
+        let clip = |mask: u8, m: &Model| -> Vec<u32> { topics_of_mask(mask).into_iter().filter(|t| m.topics.contains(t)).collect() };
+        let (res, expect): (Result<Val, String>, bool) = match op {
+            RegOp::AddTopic(k) => {
+                let t = TOPICS[*k as usize % 4];
+                let ok = !self.m.topics.contains(&t);
+                let r = self.admin(&self.cti, "add_claim_topic", args![&e; t, self.op.clone()]);
+                if ok && r.is_ok() {
+                    self.m.topics.push(t);
+                }
+                (r, ok)
+            }
+            RegOp::RemoveTopic(k) => {
+                let t = TOPICS[*k as usize % 4];
+                let ok = self.m.topics.contains(&t);
+                let r = self.admin(&self.cti, "remove_claim_topic", args![&e; t, self.op.clone()]);
+                if ok && r.is_ok() {
+                    self.m.topics.retain(|x| *x != t);
+                    for ts in self.m.issuers.values_mut() {
+                        ts.retain(|x| *x != t);
+                    }
+                    ctx.class("reg_remove_topic");
+                }
+                (r, ok)
+            }
+            RegOp::AddIssuer(i, mask, c) => {
+                let i = *i as usize % N_ISS;
+                let ts = if *c { clip(*mask, &self.m) } else { topics_of_mask(*mask) };
+                let ok = !ts.is_empty() && ts.iter().all(|t| self.m.topics.contains(t)) && !self.m.issuers.contains_key(&i);
+                let r = self.admin(&self.cti, "add_trusted_issuer", args![&e; self.issuers[i].clone(), SVec::from_slice(&e, &ts), self.op.clone()]);
+                if ok && r.is_ok() {
+                    self.m.issuers.insert(i, ts);
+                }
+                (r, ok)
+            }
+            RegOp::RemoveIssuer(i) => {
+                let i = *i as usize % N_ISS;
+                let ok = self.m.issuers.contains_key(&i);
+                let r = self.admin(&self.cti, "remove_trusted_issuer", args![&e; self.issuers[i].clone(), self.op.clone()]);
+                if ok && r.is_ok() {
+                    self.m.issuers.remove(&i);
+                    ctx.class("reg_remove_issuer");
+                }
+                (r, ok)
+            }
+            RegOp::UpdateIssuer(i, mask, c) => {
+                let i = *i as usize % N_ISS;
+                let ts = if *c { clip(*mask, &self.m) } else { topics_of_mask(*mask) };
+                let ok = !ts.is_empty() && ts.iter().all(|t| self.m.topics.contains(t)) && self.m.issuers.contains_key(&i);
+                let r = self.admin(&self.cti, "update_issuer_claim_topics", args![&e; self.issuers[i].clone(), SVec::from_slice(&e, &ts), self.op.clone()]);
+                if ok && r.is_ok() {
+                    self.m.issuers.insert(i, ts);
+                    ctx.class("reg_update_issuer");
+                }
+                (r, ok)
+            }
+        };
+        ctx.op(res.is_ok());
+        ensure!(
+            res.is_ok() == expect,
+            "C15/registry/outcome-differs-from-documentation",
+            "{what}: {:?} {} but the documented preconditions say it should {}: {:?}",
+            op,
+            if res.is_ok() { "succeeded" } else { "failed" },
+            if expect { "succeed" } else { "fail" },
+            res.err()
+        );
+        self.check_registry(what)
+    }
+
+    /// the registry's own view must equal the model (this is what "currently trusted for the topic" means)
+    fn check_registry(&self, what: &str) -> R {
+        let e = &self.e;
+        let got: Map<u32, SVec<Address>> =
+            envx::call_t(e, &self.cti, "get_claim_topics_and_issuers", args![e]).map_err(|er| violation("C15/registry/getter-failed", format!("{what}: {er}")))?;
+        let mut g: BTreeMap<u32, BTreeSet<usize>> = BTreeMap::new();
+        for (t, v) in got.iter() {
+            let mut s = BTreeSet::new();
+            for a in v.iter() {
+                match self.issuers.iter().position(|x| *x == a) {
+                    Some(i) => {
+                        s.insert(i);
+                    }
+                    None => bail!("C15/registry/unknown-issuer-listed", "{what}: registry lists an address that was never added for topic {t}"),
+                }
+            }
+            g.insert(t, s);
+        }
+        let mut w: BTreeMap<u32, BTreeSet<usize>> = BTreeMap::new();
+        for &t in &self.m.topics {
+            w.insert(t, self.m.trusted_for(t).into_iter().collect());
+        }
+        ensure!(g == w, "C15/registry/state-differs-from-model", "{what}: get_claim_topics_and_issuers = {:?}, model {:?}", g, w);
+        Ok(())
+    }
+
+    // ---- issuer keys
+
+    fn allow_key(&mut self, i: usize, scheme: Scheme, topic: u32, ctx: &mut Ctx, what: &str) -> R {
+        let e = self.e.clone();
+        let pk = self.pubkey(i as u8, scheme);
+        let expect = self.m.trusted(i, topic) && !self.m.allowed.contains(&(i, scheme, topic));
+        let r = self.admin(&self.issuers[i], "allow_key", args![&e; bytes(&e, &pk), self.cti.clone(), scheme.number(), topic, self.op.clone()]);
+        ctx.op(r.is_ok());
+        ensure!(
+            r.is_ok() == expect,
+            "C15/allow_key/outcome-differs-from-documentation",
+            "{what}: allow_key(issuer {i}, {}, topic {topic}) ok = {}, documented: {} (issuer trusted for topic: {}, already allowed: {}) {:?}",
+            scheme.name(),
+            r.is_ok(),
+            expect,
+            self.m.trusted(i, topic),
+            self.m.allowed.contains(&(i, scheme, topic)),
+            r.err()
+        );
+        if r.is_ok() {
+            self.m.allowed.insert((i, scheme, topic));
+        }
+        Ok(())
+    }
+    fn remove_key(&mut self, i: usize, scheme: Scheme, topic: u32, ctx: &mut Ctx, what: &str) -> R {
+        let e = self.e.clone();
+        let pk = self.pubkey(i as u8, scheme);
+        let expect = self.m.allowed.contains(&(i, scheme, topic));
+        let r = self.admin(&self.issuers[i], "remove_key", args![&e; bytes(&e, &pk), self.cti.clone(), scheme.number(), topic, self.op.clone()]);
+        ctx.op(r.is_ok());
+        ensure!(
+            r.is_ok() == expect,
+            "C15/remove_key/outcome-differs-from-documentation",
+            "{what}: remove_key(issuer {i}, {}, topic {topic}) ok = {}, documented: {} {:?}",
+            scheme.name(),
+            r.is_ok(),
+            expect,
+            r.err()
+        );
+        if r.is_ok() {
+            self.m.allowed.remove(&(i, scheme, topic));
+        }
+        Ok(())
+    }
+
+    // ---- claims
+
+    /// Build the claim for slot (ident, issuer, topic): sign (possibly something else), then tamper.
+    fn build(&mut self, c: &ClaimOp, ident: usize, issuer: usize, topic: u32, scheme: Scheme) -> Rec {
+        self.build_with(c, ident, issuer, topic, scheme, None)
+    }
+    /// `data`: sign these claim data instead of fresh ones (re-issuing an existing claim under the current nonce)
+    fn build_with(&mut self, c: &ClaimOp, ident: usize, issuer: usize, topic: u32, scheme: Scheme, data: Option<Vec<u8>>) -> Rec {
+        let now = self.now();
+        let valid_until = now + c.ttl as u64 * 5 + c.off as u64;
+        let data = data.unwrap_or_else(|| encode_data(now.saturating_sub(100), valid_until, &c.payload));
+        let cur_nonce = self.m.nonce_of(issuer, ident, topic);
+        let mut s = Signed { net_ok: true, issuer, ident, topic, nonce: cur_nonce, data: data.clone(), key_owner: issuer as u8, key_scheme: scheme };
+        let mut net = self.net;
+        match &c.defect {
+            Defect::OtherIdentity => s.ident = (ident + 1) % N_IDENT,
+            Defect::OtherTopic(k) => {
+                let mut t2 = topic_number(*k);
+                if t2 == topic {
+                    t2 = topic + 100;
+                }
+                s.topic = t2;
+            }
+            Defect::OtherIssuer(k) => {
+                let mut i2 = *k as usize % N_ISS;
+                if i2 == issuer {
+                    i2 = (issuer + 1) % N_ISS;
+                }
+                s.issuer = i2;
+            }
+            Defect::OtherNetwork(b) => {
+                net[*b as usize % 32] ^= 0x01;
+                s.net_ok = false;
+            }
+            Defect::WrongNonce => s.nonce = if cur_nonce > 0 { cur_nonce - 1 } else { cur_nonce + 1 },
+            Defect::KeyNotAllowed { stranger } => {
+                // another key of this issuer that is allowed for some OTHER topic but not for this one
+                let alt = SCHEMES
+                    .iter()
+                    .copied()
+                    .find(|sc| !self.m.allowed.contains(&(issuer, *sc, topic)) && self.m.allowed.iter().any(|(i, s2, _)| *i == issuer && s2 == sc));
+                match (stranger, alt) {
+                    (false, Some(sc)) => s.key_scheme = sc,
+                    _ => s.key_owner = STRANGER,
+                }
+            }
+            _ => {}
+        }
+        let msg = claim_message(&net, &self.issuers[s.issuer], &self.idents[s.ident], s.topic, s.nonce, &s.data);
+        let (owner, ksch) = (s.key_owner, s.key_scheme);
+        let mut sig_data = self.key(owner, ksch).sign(&msg);
+        let mut r = Rec { f_issuer: issuer, f_topic: topic, scheme_no: ksch.number(), sig_data: vec![], data, signed: s, sig_intact: true, defect: c.defect.name() };
+        match &c.defect {
+            Defect::SigBitFlip(sel) => {
+                let bit = pick(*sel, sig_data.len() * 8);
+                sig_data[bit / 8] ^= 1 << (bit % 8);
+                r.sig_intact = false;
+            }
+            Defect::DataByteFlip(sel, x) => {
+                let k = pick(*sel, r.data.len());
+                r.data[k] ^= *x;
+            }
+            Defect::WrongScheme(k) => {
+                let others: Vec<u32> = SCHEMES.iter().filter(|sc| **sc != ksch).map(|sc| sc.number()).collect();
+                r.scheme_no = match k % 4 {
+                    0 => others[0],
+                    1 => others[1],
+                    2 => 200,
+                    _ => 0,
+                };
+            }
+            Defect::Truncated(sel) => {
+                // mostly by one byte, otherwise anywhere
+                let n = if sel & 1 == 0 { sig_data.len() - 1 } else { pick(*sel, sig_data.len()) };
+                sig_data.truncate(n);
+                r.sig_intact = false;
+            }
+            Defect::Extended => {
+                sig_data.push(0);
+                r.sig_intact = false;
+            }
+            Defect::SlotIssuer(k) => {
+                let mut i2 = *k as usize % N_ISS;
+                if i2 == issuer {
+                    i2 = (issuer + 1) % N_ISS;
+                }
+                r.f_issuer = i2;
+            }
+            Defect::SlotTopic(k) => {
+                let mut t2 = topic_number(*k);
+                if t2 == topic {
+                    t2 = topic + 100;
+                }
+                r.f_topic = t2;
+            }
+            _ => {}
+        }
+        r.sig_data = sig_data;
+        r
+    }
+
+    /// `is_claim_valid` at `issuer` for (ident, topic): must succeed iff the model says valid
+    fn probe(&self, r: &Rec, issuer: usize, ident: usize, topic: u32, ctx: &mut Ctx, what: &str) -> R {
+        let e = &self.e;
+        envx::no_auth(e);
+        let res = call(
+            e,
+            &self.issuers[issuer],
+            "is_claim_valid",
+            args![e; self.idents[ident].clone(), topic, r.scheme_no, bytes(e, &r.sig_data), bytes(e, &r.data)],
+        );
+        ctx.op(res.is_ok());
+        let why = self.m.why_invalid(r, issuer, ident, topic, self.now());
+        match (&res, why) {
+            (Ok(_), Some((cls, w))) => bail!(
+                format!("C15/is_claim_valid/confirmed-invalid-claim:{cls}"),
+                "{what}: issuer {issuer} confirmed a claim for identity {ident}, topic {topic} although: {w} (construction: {}, signed {:?})",
+                r.defect,
+                r.signed
+            ),
+            (Err(er), None) => bail!(
+                "C15/is_claim_valid/rejected-valid-claim",
+                "{what}: issuer {issuer} rejected a claim for identity {ident}, topic {topic} that is valid by construction ({}): {er} (signed {:?})",
+                r.defect,
+                r.signed
+            ),
+            _ => {}
+        }
+        Ok(())
+    }
+
+    fn claim_struct(&self, r: &Rec) -> Claim {
+        let e = &self.e;
+        Claim {
+            topic: r.f_topic,
+            scheme: r.scheme_no,
+            issuer: self.issuers[r.f_issuer].clone(),
+            signature: bytes(e, &r.sig_data),
+            data: bytes(e, &r.data),
+            uri: SString::from_str(e, "uri"),
+        }
+    }
+
+    /// place a record into slot (ident, issuer, topic) of the identity's storage and read it back through the entry points
+    fn inject(&mut self, r: &Rec, ident: usize, issuer: usize, topic: u32, what: &str) -> R {
+        let e = self.e.clone();
+        let claim = self.claim_struct(r);
+        let id = generate_claim_id(&e, &self.issuers[issuer], topic);
+        e.as_contract(&self.idents[ident], || {
+            let st = e.storage().persistent();
+            st.set(&ClaimsStorageKey::Claim(id.clone()), &claim);
+            let k = ClaimsStorageKey::ClaimsByTopic(topic);
+            let mut ids: SVec<BytesN<32>> = st.get(&k).unwrap_or_else(|| SVec::new(&e));
+            if !ids.contains(&id) {
+                ids.push_back(id.clone());
+                st.set(&k, &ids);
+            }
+        });
+        let ids: SVec<BytesN<32>> = envx::call_t(&e, &self.idents[ident], "get_claim_ids_by_topic", args![&e; topic])
+            .map_err(|er| violation("C15/harness/inject-readback", format!("{what}: get_claim_ids_by_topic failed: {er}")))?;
+        let back: Claim = envx::call_t(&e, &self.idents[ident], "get_claim", args![&e; id.clone()])
+            .map_err(|er| violation("C15/harness/inject-readback", format!("{what}: get_claim failed: {er}")))?;
+        ensure!(ids.contains(&id) && back == claim, "C15/harness/inject-readback", "{what}: the injected record is not what the identity's entry points return");
+        self.m.recs.insert((ident, issuer, topic), r.clone());
+        Ok(())
+    }
+
+    /// present a claim to the issuer and to the identity's `add_claim`
+    fn present(&mut self, r: Rec, ident: usize, issuer: usize, topic: u32, inject: bool, ctx: &mut Ctx, what: &str) -> R {
+        let e = self.e.clone();
+        ctx.class(&format!("claim:{}", r.defect));
+        ctx.class(&format!("scheme:{}", r.signed.key_scheme.name()));
+        let slot_mismatch = r.f_issuer != issuer || r.f_topic != topic;
+        self.probe(&r, issuer, ident, topic, ctx, what)?;
+        if slot_mismatch {
+            // add_claim derives the slot from the fields, so such a record can only be placed directly
+            ctx.class("injected");
+            return self.inject(&r, ident, issuer, topic, what);
+        }
+        let why = self.m.why_invalid(&r, issuer, ident, topic, self.now());
+        envx::no_auth(&e);
+        let res = call(
+            &e,
+            &self.idents[ident],
+            "add_claim",
+            args![&e; topic, r.scheme_no, self.issuers[issuer].clone(), bytes(&e, &r.sig_data), bytes(&e, &r.data), SString::from_str(&e, "uri")],
+        );
+        ctx.op(res.is_ok());
+        match (&res, why) {
+            (Ok(_), Some((cls, w))) => bail!(
+                format!("C15/add_claim/accepted-invalid-claim:{cls}"),
+                "{what}: add_claim stored a claim of issuer {issuer} for identity {ident}, topic {topic} although: {w} (construction: {})",
+                r.defect
+            ),
+            (Err(er), None) => bail!(
+                "C15/add_claim/rejected-valid-claim",
+                "{what}: add_claim refused a claim of issuer {issuer} for identity {ident}, topic {topic} that is valid by construction: {er}"
+            ),
+            (Ok(_), None) => {
+                ctx.class("add_claim_accepted");
+                self.m.recs.insert((ident, issuer, topic), r);
+            }
+            (Err(_), Some(_)) => {
+                ctx.class("add_claim_refused");
+                if inject {
+                    ctx.class("injected");
+                    self.inject(&r, ident, issuer, topic, what)?;
+                }
+            }
+        }
+        Ok(())
+    }
+
+    fn held(&self, sel: u16) -> Option<((usize, usize, u32), Rec)> {
+        if self.m.recs.is_empty() {
+            return None;
+        }
+        let k = pick(sel, self.m.recs.len());
+        self.m.recs.iter().nth(k).map(|(k, v)| (*k, v.clone()))
+    }
+
+    /// like `held`, but among the records whose claim is currently revoked when there is one
+    fn held_revoked_first(&self, sel: u16) -> Option<((usize, usize, u32), Rec)> {
+        let rev: Vec<_> = self
+            .m
+            .recs
+            .iter()
+            .filter(|((ident, issuer, topic), r)| self.m.revoked.get(&(*issuer, *ident, *topic, r.data.clone())).copied().unwrap_or(false))
+            .collect();
+        if rev.is_empty() {
+            return self.held(sel);
+        }
+        let (k, v) = rev[pick(sel, rev.len())];
+        Some((*k, v.clone()))
+    }
+
+    // ---- the oracle after every step
+
+    fn check_all(&self, ctx: &mut Ctx, what: &str, st: &mut Stats) -> R {
+        let e = &self.e;
+        let now = self.now();
+        // 1. every held record against its slot issuer
+        for ((ident, issuer, topic), r) in &self.m.recs {
+            self.probe(r, *issuer, *ident, *topic, ctx, what)?;
+        }
+        // 2. verify_identity for every account
+        for a in 0..N_ACCT {
+            envx::no_auth(e);
+            let res = call(e, &self.verifier, "verify_identity", args![e; self.accts[a].clone()]);
+            ctx.op(res.is_ok());
+            let (strict, lenient) = self.m.expect_verify(a, now);
+            if res.is_ok() {
+                ctx.class("verify_ok");
+                st.verify_ok = true;
+            } else {
+                ctx.class("verify_refused");
+                if st.was_ok[a] {
+                    ctx.class("verify_ok_then_refused");
+                    st.flipped = true;
+                }
+            }
+            st.was_ok[a] = res.is_ok();
+            if res.is_ok() == strict {
+                self.classify(a, now, ctx, st);
+                continue;
+            }
+            let ident = self.m.irs.get(&a).copied();
+            if res.is_ok() && lenient {
+                // the only unsatisfied required topics are topics nobody is trusted for
+                let empty: Vec<u32> = self.m.topics.iter().copied().filter(|t| self.m.trusted_for(*t).is_empty()).collect();
+                ctx.class("topic_without_issuer_passed");
+                if st.deferred.is_none() {
+                    st.deferred = Some(violation(
+                        "C15/verify_identity/topic-without-issuer-passes",
+                        format!(
+                            "{what}: verify_identity(account {a}) succeeded although the required topic(s) {:?} have no trusted issuer, so identity {:?} holds no claim for them (required {:?}, trusted {:?})",
+                            empty, ident, self.m.topics, self.m.issuers
+                        ),
+                    ));
+                }
+                continue;
+            }
+            if res.is_ok() {
+                let mut lines = vec![];
+                for &t in &self.m.topics {
+                    let iss = self.m.trusted_for(t);
+                    if let Some(id) = ident {
+                        if iss.iter().any(|&i| self.m.counts(id, i, t, now)) {
+                            continue;
+                        }
+                        let why: Vec<String> = iss
+                            .iter()
+                            .map(|&i| match self.m.recs.get(&(id, i, t)) {
+                                None => format!("issuer {i}: no claim"),
+                                Some(r) if r.f_issuer != i || r.f_topic != t => format!("issuer {i}: record names issuer {} topic {}", r.f_issuer, r.f_topic),
+                                Some(r) => format!("issuer {i}: {} [{}]", self.m.why_invalid(r, i, id, t, now).map(|x| x.1).unwrap_or("?"), r.defect),
+                            })
+                            .collect();
+                        lines.push(format!("topic {t}: {}", why.join("; ")));
+                    }
+                }
+                bail!(
+                    "C15/verify_identity/passes-without-valid-claim",
+                    "{what}: verify_identity(account {a}) succeeded; registered identity {:?}; unsatisfied required topics: {}",
+                    ident,
+                    if lines.is_empty() { "account has no registered identity".to_string() } else { lines.join(" | ") }
+                );
+            } else {
+                bail!(
+                    "C15/verify_identity/refused-with-valid-claims",
+                    "{what}: verify_identity(account {a}) failed ({:?}) although identity {:?} holds a valid claim of a currently trusted issuer for every required topic {:?} (trusted {:?})",
+                    res.err(),
+                    ident,
+                    self.m.topics,
+                    self.m.issuers
+                );
+            }
+        }
+        Ok(())
+    }
+
+    /// coverage classes of one verification (no assertions)
+    fn classify(&self, a: usize, now: u64, ctx: &mut Ctx, st: &mut Stats) {
+        let Some(&ident) = self.m.irs.get(&a) else {
+            ctx.class("verify_unregistered_account");
+            return;
+        };
+        let e = &self.e;
+        if self.m.topics.len() >= 2 {
+            st.two_topics = true;
+        }
+        for &t in &self.m.topics {
+            let iss = self.m.trusted_for(t);
+            match iss.len() {
+                0 => {
+                    ctx.class("required_topic_without_issuer");
+                    st.topic_without_issuer = true;
+                }
+                1 => ctx.class("required_topic_one_issuer"),
+                _ => ctx.class("required_topic_several_issuers"),
+            }
+            if iss.len() >= 2 {
+                // order in which the registry lists them (class only)
+                let order: Vec<usize> = envx::call_t::<SVec<Address>>(e, &self.cti, "get_claim_topic_issuers", args![e; t])
+                    .map(|v| v.iter().filter_map(|a| self.issuers.iter().position(|x| *x == a)).collect())
+                    .unwrap_or_default();
+                let held: Vec<bool> = order.iter().filter(|i| self.m.recs.contains_key(&(ident, **i, t))).map(|i| self.m.counts(ident, *i, t, now)).collect();
+                if held.len() >= 2 && held.iter().any(|v| *v) && held.iter().any(|v| !*v) {
+                    st.mixed = true;
+                    if held[0] {
+                        ctx.class("several_issuers_first_valid_later_invalid");
+                    } else {
+                        ctx.class("several_issuers_first_invalid_later_valid");
+                    }
+                }
+            }
+            // a held record of an issuer that is no longer trusted for the topic
+            for i in 0..N_ISS {
+                if !iss.contains(&i) && self.m.recs.contains_key(&(ident, i, t)) {
+                    ctx.class("claim_of_delisted_issuer_held");
+                    st.delisted = true;
+                }
+            }
+        }
+    }
+}
+
+#[derive(Default)]
+struct Stats {
+    deferred: Option<Violation>,
+    was_ok: [bool; N_ACCT],
+    verify_ok: bool,
+    flipped: bool,
+    two_topics: bool,
+    mixed: bool,
+    delisted: bool,
+    topic_without_issuer: bool,
+    defects: BTreeSet<&'static str>,
+}
+
+// ------------------------------------------------------------------ interpreter
+
+pub fn run(case: &Case, ctx: &mut Ctx) -> R {
+    let e = envx::new_env(case.seq, envx::BIG_TTL);
+    let net = sha256(&[b"verif-c15-net", &case.seed.to_le_bytes()]);
+    e.ledger().with_mut(|li| li.network_id = net);
+    let op = envx::actor(&e);
+    let cti = e.register(Cti, ());
+    let irs = e.register(Irs, ());
+    let verifier = e.register(IdVerifier, ());
+    let issuers: Vec<Address> = (0..N_ISS).map(|_| e.register(Issuer, ())).collect();
+    let idents: Vec<Address> = (0..N_IDENT).map(|_| e.register(Ident, ())).collect();
+    let accts = envx::actors(&e, N_ACCT);
+    let mut w = World { e: e.clone(), op, cti, irs, verifier, issuers, idents, accts, net, seed: case.seed, keys: BTreeMap::new(), m: Model::default() };
+    let mut st = Stats::default();
+
+    // ---- set-up (not probes): wiring, identities, initial registry, registry history, initial keys
+    let setup = |r: Result<Val, String>, what: &str| -> R {
+        match r {
+            Ok(_) => Ok(()),
+            Err(er) => Err(violation("C15/setup/failed", format!("{what}: {er}"))),
+        }
+    };
+    setup(w.admin(&w.verifier, "set_claim_topics_and_issuers", args![&e; w.cti.clone(), w.op.clone()]), "set_claim_topics_and_issuers")?;
+    setup(w.admin(&w.verifier, "set_identity_registry_storage", args![&e; w.irs.clone(), w.op.clone()]), "set_identity_registry_storage")?;
+    for a in 0..N_IDENT {
+        irs_op(&mut w, &IrsOp::Add(a as u8, a as u8), ctx, "setup add_identity")?;
+    }
+    for k in 0..4u8 {
+        if case.topics0 & (1 << k) != 0 {
+            w.reg_op(&RegOp::AddTopic(k), ctx, "setup")?;
+        }
+    }
+    for i in 0..N_ISS {
+        if !topics_of_mask(case.issuers0[i]).iter().any(|t| w.m.topics.contains(t)) {
+            continue;
+        }
+        w.reg_op(&RegOp::AddIssuer(i as u8, case.issuers0[i], true), ctx, "setup")?;
+    }
+    for (k, r) in case.reg.iter().enumerate() {
+        w.reg_op(r, ctx, &format!("registry history {k}"))?;
+    }
+    for i in 0..N_ISS {
+        for (k, t) in TOPICS.iter().enumerate() {
+            for s in SCHEMES {
+                let bit = (i * 4 + k) * 3 + s.idx();
+                if case.keys & (1u64 << bit) != 0 && w.m.trusted(i, *t) {
+                    w.allow_key(i, s, *t, ctx, "setup allow_key")?;
+                }
+            }
+        }
+    }
+    w.check_all(ctx, "after set-up", &mut st)?;
+
+    // ---- history
+    for (step, op) in case.ops.iter().enumerate() {
+        let what = format!("step {step} {:?}", op);
+        let what = what.as_str();
+        match op {
+            Op::Claim(c) => {
+                let ident = c.ident as usize % N_IDENT;
+                let pairs = w.m.trusted_pairs();
+                let (issuer, topic) = match &c.target {
+                    Target::Trusted(sel) if !pairs.is_empty() => pairs[pick(*sel, pairs.len())],
+                    Target::Trusted(sel) => (pick(*sel, N_ISS), TOPICS[(*sel as usize) & 3]),
+                    Target::Raw(i, t) => (*i as usize % N_ISS, TOPICS[*t as usize % 4]),
+                };
+                let allowed: Vec<Scheme> = SCHEMES.iter().copied().filter(|s| w.m.allowed.contains(&(issuer, *s, topic))).collect();
+                let scheme = match &c.key {
+                    KeySel::Allowed(sel) if !allowed.is_empty() => allowed[pick(*sel, allowed.len())],
+                    KeySel::Allowed(sel) => SCHEMES[pick(*sel, 3)],
+                    KeySel::Raw(s) => *s,
+                };
+                if c.defect == Defect::PreRevoked {
+                    // the claim identifier (issuer, identity, topic, data) is revoked before anybody sees the claim
+                    let mut c0 = c.clone();
+                    c0.defect = Defect::None;
+                    let r0 = w.build(&c0, ident, issuer, topic, scheme);
+                    revoke(&mut w, issuer, ident, topic, &r0.data, true, ctx, what)?;
+                }
+                let mut r = w.build(c, ident, issuer, topic, scheme);
+                if c.defect != Defect::None {
+                    st.defects.insert(r.defect);
+                } else if c.ttl == 0 && c.off == 0 {
+                    r.defect = "expired_at_creation";
+                    st.defects.insert(r.defect);
+                }
+                w.present(r, ident, issuer, topic, c.inject, ctx, what)?;
+            }
+            Op::Cover { ident, sel, ttl } => {
+                let ident = *ident as usize % N_IDENT;
+                let now = w.now();
+                for t in w.m.topics.clone() {
+                    if w.m.trusted_for(t).iter().any(|&i| w.m.counts(ident, i, t, now)) {
+                        continue;
+                    }
+                    let cands: Vec<(usize, Scheme)> =
+                        w.m.allowed.iter().filter(|(i, _, t2)| *t2 == t && w.m.trusted(*i, t)).map(|(i, s, _)| (*i, *s)).collect();
+                    if cands.is_empty() {
+                        ctx.class("cover_impossible_for_topic");
+                        continue;
+                    }
+                    let (issuer, scheme) = cands[pick(*sel, cands.len())];
+                    let c = ClaimOp {
+                        ident: ident as u8,
+                        target: Target::Raw(0, 0),
+                        key: KeySel::Raw(scheme),
+                        ttl: *ttl,
+                        off: 0,
+                        payload: vec![t as u8],
+                        defect: Defect::None,
+                        inject: false,
+                    };
+                    let r = w.build(&c, ident, issuer, t, scheme);
+                    w.present(r, ident, issuer, t, false, ctx, what)?;
+                }
+            }
+            Op::DropKey(sel) => match w.held(*sel) {
+                Some(((_, issuer, topic), r)) if r.signed.key_owner as usize == issuer && w.m.allowed.contains(&(issuer, r.signed.key_scheme, topic)) => {
+                    w.remove_key(issuer, r.signed.key_scheme, topic, ctx, what)?;
+                    ctx.class("after:key_removed");
+                    st.defects.insert("key_removed_afterwards");
+                }
+                _ => ctx.class("skipped_op"),
+            },
+            Op::Revoke(sel, flag) => match if *flag { w.held(*sel) } else { w.held_revoked_first(*sel) } {
+                Some(((ident, issuer, topic), r)) => {
+                    revoke(&mut w, issuer, ident, topic, &r.data, *flag, ctx, what)?;
+                    if *flag {
+                        ctx.class("after:revoked");
+                        st.defects.insert("revoked_afterwards");
+                    } else {
+                        ctx.class("after:unrevoked");
+                    }
+                }
+                None => ctx.class("skipped_op"),
+            },
+            Op::Bump(sel) => match w.held(*sel) {
+                Some(((ident, issuer, topic), _)) => {
+                    bump_nonce(&mut w, issuer, ident, topic, ctx, what)?;
+                    ctx.class("after:nonce_bumped");
+                    st.defects.insert("nonce_bumped_afterwards");
+                }
+                None => ctx.class("skipped_op"),
+            },
+            Op::Resign(sel, bump) => match w.held_revoked_first(*sel) {
+                Some(((ident, issuer, topic), r)) => {
+                    if *bump {
+                        bump_nonce(&mut w, issuer, ident, topic, ctx, what)?;
+                    }
+                    let allowed: Vec<Scheme> = SCHEMES.iter().copied().filter(|s| w.m.allowed.contains(&(issuer, *s, topic))).collect();
+                    let scheme = if allowed.contains(&r.signed.key_scheme) || allowed.is_empty() { r.signed.key_scheme } else { allowed[0] };
+                    let c = ClaimOp {
+                        ident: ident as u8,
+                        target: Target::Raw(0, 0),
+                        key: KeySel::Raw(scheme),
+                        ttl: 0,
+                        off: 0,
+                        payload: vec![],
+                        defect: Defect::None,
+                        inject: true,
+                    };
+                    let mut r2 = w.build_with(&c, ident, issuer, topic, scheme, Some(r.data.clone()));
+                    r2.defect = "resigned_same_data";
+                    if w.m.revoked.get(&(issuer, ident, topic, r.data.clone())).copied().unwrap_or(false) {
+                        ctx.class("resigned_revoked_claim");
+                    }
+                    w.present(r2, ident, issuer, topic, true, ctx, what)?;
+                }
+                None => ctx.class("skipped_op"),
+            },
+            Op::AdvanceToExpiry(sel, d) => match w.held(*sel).and_then(|(_, r)| valid_until_of(&r.data)) {
+                Some(vu) => {
+                    // first ledger whose timestamp is >= valid_until, plus d
+                    let base = 1_700_000_000u64;
+                    let seq_exp = (vu.saturating_sub(base) + 4) / 5;
+                    let target = (seq_exp as i64 + *d as i64).clamp(0, u32::MAX as i64 - 10) as u32;
+                    let cur = envx::seq(&e);
+                    if target > cur && target - cur <= 400 {
+                        envx::set_seq(&e, target);
+                        ctx.class(match d {
+                            -1 => "advance_to_expiry_minus_1",
+                            0 => "advance_to_expiry",
+                            _ => "advance_to_expiry_plus_1",
+                        });
+                        if *d >= 0 {
+                            st.defects.insert("expired_afterwards");
+                        }
+                    } else {
+                        ctx.class("skipped_op");
+                    }
+                }
+                None => ctx.class("skipped_op"),
+            },
+            Op::Delist(sel, how) => match w.held(*sel) {
+                Some(((_, issuer, topic), _)) if w.m.trusted(issuer, topic) => {
+                    let rest: Vec<u32> = w.m.issuers[&issuer].iter().copied().filter(|t| *t != topic).collect();
+                    let rop = match how % 3 {
+                        1 if !rest.is_empty() => {
+                            let mask = TOPICS.iter().enumerate().filter(|(_, t)| rest.contains(t)).fold(0u8, |m, (k, _)| m | (1 << k));
+                            RegOp::UpdateIssuer(issuer as u8, mask, false)
+                        }
+                        2 => RegOp::RemoveTopic(TOPICS.iter().position(|t| *t == topic).unwrap_or(0) as u8),
+                        _ => RegOp::RemoveIssuer(issuer as u8),
+                    };
+                    w.reg_op(&rop, ctx, what)?;
+                    ctx.class("after:issuer_delisted");
+                    st.defects.insert("issuer_delisted_afterwards");
+                }
+                _ => ctx.class("skipped_op"),
+            },
+            Op::RemoveClaim(sel) => match w.held(*sel) {
+                // `remove_claim` un-indexes by the record's own topic field: for a placed record whose topic field
+                // differs from its slot that would leave a dangling index entry no API call can produce; skip those
+                Some(((ident, issuer, topic), r)) if r.f_topic == topic => {
+                    let id = generate_claim_id(&e, &w.issuers[issuer], topic);
+                    envx::no_auth(&e);
+                    let r = call(&e, &w.idents[ident], "remove_claim", args![&e; id]);
+                    ctx.op(r.is_ok());
+                    ensure!(r.is_ok(), "C15/remove_claim/failed", "{what}: removing a held claim failed: {:?}", r.err());
+                    w.m.recs.remove(&(ident, issuer, topic));
+                    ctx.class("claim_removed");
+                }
+                _ => ctx.class("skipped_op"),
+            },
+            Op::Reg(r) => w.reg_op(r, ctx, what)?,
+            Op::AllowKey { issuer, scheme, topic } => w.allow_key(*issuer as usize % N_ISS, *scheme, TOPICS[*topic as usize % 4], ctx, what)?,
+            Op::RemoveKey { issuer, scheme, topic } => w.remove_key(*issuer as usize % N_ISS, *scheme, TOPICS[*topic as usize % 4], ctx, what)?,
+            Op::Advance(k) => envx::advance(&e, *k as u32),
+            Op::Irs(o) => irs_op(&mut w, o, ctx, what)?,
+            Op::CrossProbe(sel, cross) => match w.held(*sel) {
+                Some(((ident, issuer, topic), r)) => {
+                    let (i2, id2, t2) = match cross {
+                        Cross::Topic(k) => (issuer, ident, if topic_number(*k) == topic { topic + 100 } else { topic_number(*k) }),
+                        Cross::Ident => (issuer, (ident + 1) % N_IDENT, topic),
+                        Cross::Issuer(k) => (if *k as usize % N_ISS == issuer { (issuer + 1) % N_ISS } else { *k as usize % N_ISS }, ident, topic),
+                    };
+                    ctx.class("cross_probe");
+                    w.probe(&r, i2, id2, t2, ctx, what)?;
+                }
+                None => ctx.class("skipped_op"),
+            },
+        }
+        w.check_all(ctx, what, &mut st)?;
+    }
+
+    for d in &st.defects {
+        ctx.class(&format!("case_with:{d}"));
+    }
+    if st.topic_without_issuer {
+        ctx.class("case_with:required_topic_without_issuer");
+    }
+    if st.delisted {
+        ctx.class("case_with:claim_of_delisted_issuer");
+    }
+    if st.verify_ok {
+        ctx.class("case_with:verify_ok");
+    }
+    if st.flipped {
+        ctx.class("case_with:verify_ok_then_refused");
+    }
+    if st.two_topics && st.mixed && !st.defects.is_empty() {
+        ctx.nontrivial = true;
+        ctx.class("nontrivial");
+    }
+    match st.deferred {
+        Some(v) => Err(v),
+        None => Ok(()),
+    }
+}
+
+fn bump_nonce(w: &mut World, issuer: usize, ident: usize, topic: u32, ctx: &mut Ctx, what: &str) -> R {
+    let e = w.e.clone();
+    let r = w.admin(&w.issuers[issuer], "invalidate_claim_signatures", args![&e; w.idents[ident].clone(), topic, w.op.clone()]);
+    ctx.op(r.is_ok());
+    ensure!(r.is_ok(), "C15/invalidate_claim_signatures/failed", "{what}: {:?}", r.err());
+    *w.m.nonce.entry((issuer, ident, topic)).or_insert(0) += 1;
+    Ok(())
+}
+
+fn revoke(w: &mut World, issuer: usize, ident: usize, topic: u32, data: &[u8], flag: bool, ctx: &mut Ctx, what: &str) -> R {
+    let e = w.e.clone();
+    let r = w.admin(&w.issuers[issuer], "set_claim_revoked", args![&e; w.idents[ident].clone(), topic, bytes(&e, data), flag, w.op.clone()]);
+    ctx.op(r.is_ok());
+    ensure!(r.is_ok(), "C15/set_claim_revoked/failed", "{what}: {:?}", r.err());
+    w.m.revoked.insert((issuer, ident, topic, data.to_vec()), flag);
+    Ok(())
+}
+
+fn irs_op(w: &mut World, op: &IrsOp, ctx: &mut Ctx, what: &str) -> R {
+    let e = w.e.clone();
+    let (r, expect) = match op {
+        IrsOp::Add(a, i) => {
+            let (a, i) = (*a as usize % N_ACCT, *i as usize % N_IDENT);
+            let cd = CountryData { country: CountryRelation::Individual(IndividualCountryRelation::Residence(840)), metadata: None };
+            let expect = !w.m.irs.contains_key(&a);
+            let r = w.admin(&w.irs, "add_identity", args![&e; w.accts[a].clone(), w.idents[i].clone(), SVec::from_array(&e, [cd]), w.op.clone()]);
+            if r.is_ok() && expect {
+                w.m.irs.insert(a, i);
+            }
+            (r, expect)
+        }
+        IrsOp::Remove(a) => {
+            let a = *a as usize % N_ACCT;
+            let expect = w.m.irs.contains_key(&a);
+            let r = w.admin(&w.irs, "remove_identity", args![&e; w.accts[a].clone(), w.op.clone()]);
+            if r.is_ok() && expect {
+                w.m.irs.remove(&a);
+                ctx.class("irs_identity_removed");
+            }
+            (r, expect)
+        }
+        IrsOp::Modify(a, i) => {
+            let (a, i) = (*a as usize % N_ACCT, *i as usize % N_IDENT);
+            let expect = w.m.irs.contains_key(&a);
+            let r = w.admin(&w.irs, "modify_identity", args![&e; w.accts[a].clone(), w.idents[i].clone(), w.op.clone()]);
+            if r.is_ok() && expect {
+                w.m.irs.insert(a, i);
+                ctx.class("irs_identity_modified");
+            }
+            (r, expect)
+        }
+    };
+    ctx.op(r.is_ok());
+    ensure!(
+        r.is_ok() == expect,
+        "C15/identity_registry/outcome-differs-from-documentation",
+        "{what}: {:?} ok = {}, documented: {} {:?}",
+        op,
+        r.is_ok(),
+        expect,
+        r.err()
+    );
+    // the registry's own answer must be the model's
+    for a in 0..N_ACCT {
+        let got = envx::call_t::<Address>(&e, &w.irs, "stored_identity", args![&e; w.accts[a].clone()]).ok();
+        let want = w.m.irs.get(&a).map(|i| w.idents[*i].clone());
+        ensure!(got == want, "C15/identity_registry/state-differs-from-model", "{what}: stored_identity(account {a}) = {:?}, model {:?}", got, want);
+    }
+    Ok(())
+}
 
 pub fn property() -> Property {
-    Property { id: "C15", rule: "", subs: vec![], floors: vec![], assumptions: vec![] }
+    Property {
+        id: "C15",
+        rule: "case = key seed, initial required topics (universe {1,2,3,7}) and trusted issuers (3 claim-issuer contracts, one key per scheme Ed25519/Secp256k1/Secp256r1), \
+               a registry history (add/remove topic, add/remove issuer, update issuer topics; <= 15 registry operations in total), an initial key-allowance mask, and a history of <= 22 (thorough 40) \
+               operations: claims for (identity, issuer, topic) genuinely signed or with ONE defect (sig bit flip, data byte flip, signed for other identity/topic/issuer/network/nonce, key not allowed, \
+               wrong scheme number, truncated/extended sig_data, revoked before add, expired at creation, record whose issuer/topic field differs from its slot), presented to add_claim and placed into the \
+               identity's storage when refused; after-acceptance defects aimed at held records (key removed, revoked/unrevoked, nonce bump, same data re-signed under the current nonce, ledger time to expiry-1/expiry/expiry+1, issuer de-listed by \
+               remove/update/remove-topic), Cover (genuine claims for every uncovered required topic), raw registry/key/IRS operations, cross probes. After every step every held record is shown to its issuer and verify_identity runs for 3 accounts (one unregistered). \
+               non-trivial = some verification with >= 2 required topics AND a topic with >= 2 trusted issuers that both hold a record for the identity, one valid and one invalid, AND >= 1 defect class in the case; \
+               distinct = distinct serialised case",
+        subs: vec![gen_sub::<Case>("identity", 800, 12000, strategy, run)],
+        // <= 1/10 of the minimum measured over quick seeds 0..3 / of one thorough run
+        floors: vec![
+            ("nontrivial", 20, 400),
+            ("verify_ok", 250, 8000),
+            ("verify_ok_then_refused", 40, 1200),
+            ("case_with:required_topic_without_issuer", 15, 300),
+            ("case_with:claim_of_delisted_issuer", 15, 400),
+            ("several_issuers_first_invalid_later_valid", 50, 2500),
+            ("several_issuers_first_valid_later_invalid", 40, 2500),
+            ("add_claim_accepted", 200, 5000),
+            ("add_claim_refused", 120, 4000),
+            ("injected", 120, 4000),
+            ("claim:sig_bit_flip", 8, 250),
+            ("claim:data_byte_flip", 8, 250),
+            ("claim:signed_other_identity", 8, 250),
+            ("claim:signed_other_topic", 8, 250),
+            ("claim:signed_other_issuer", 8, 250),
+            ("claim:signed_other_network", 8, 250),
+            ("claim:signed_wrong_nonce", 8, 250),
+            ("claim:key_not_allowed", 12, 350),
+            ("claim:wrong_scheme_number", 8, 250),
+            ("claim:truncated_sig_data", 8, 250),
+            ("claim:revoked_before_add", 8, 250),
+            ("claim:expired_at_creation", 4, 120),
+            ("claim:slot_issuer_mismatch", 8, 250),
+            ("claim:slot_topic_mismatch", 8, 250),
+            ("after:key_removed", 20, 600),
+            ("after:revoked", 20, 600),
+            ("after:nonce_bumped", 25, 800),
+            ("after:issuer_delisted", 20, 600),
+            ("advance_to_expiry", 10, 300),
+            ("advance_to_expiry_minus_1", 10, 250),
+            ("resigned_revoked_claim", 5, 250),
+            ("scheme:ed25519", 120, 3000),
+            ("scheme:secp256k1", 120, 3000),
+            ("scheme:secp256r1", 120, 3000),
+        ],
+        assumptions: vec![
+            "Soroban native test host (storage, cross-contract calls with try_ rollback, ed25519/secp256k1/secp256r1/keccak/sha256 host functions) is trusted",
+            "claims are signed with RustCrypto ed25519-dalek / p256 (low-S) / k256 (low-S, recoverable); valid(c) is known by construction, never by verifying a signature in the oracle",
+            "claim data always carries the documented created_at/valid_until header (>= 16 bytes); ledger timestamp = 1_700_000_000 + 5 * sequence",
+            "records that add_claim refuses are written into the identity's storage through a mirror of the (private) ClaimsStorageKey enum and read back through get_claim/get_claim_ids_by_topic",
+            "authorization of the admin entry points is out of scope (mock_all_auths for them; verify_identity / is_claim_valid / add_claim run with no authorization entries)",
+        ],
+    }
 }
